@@ -768,14 +768,16 @@ def _validator_calls(ctx, F, reach):
             # the validator may have been renamed or moved: another validator of the same crate gained as many calls
             lost.append((key, n, cur.get(key, 0)))
     gained = sum(max(0, cur[k] - base.get(k, 0)) for k in cur)
+    unexplained = 0
     for key, n, have in lost:
         explained = gained >= (n - have) and len(lost) == 1 and any(k[0] == key[0] and cur[k] > base.get(k, 0) for k in cur)
+        unexplained += 0 if explained else 1
         ctx.ob("R14.6", "validator:%s|%s" % key, explained,
                "%d call(s) of %s left %s while another validator of the crate gained as many: renamed or moved" % (n - have, key[1], key[0]) if explained else
                "%s was called %d time(s) from %s on the untrusted path and is now called %d time(s): the data it rejected reaches the code behind it" % (
                    key[1], n, key[0], have), "")
-    ctx.ob("R14.6", "validator-calls", not [1 for k, n, h in lost], "%d call sites of %d validation routines on the untrusted path; none disappeared" % (
-        sum(cur.values()), len(cur)) if not lost else "%d validator call site(s) disappeared" % len(lost), "")
+    ctx.ob("R14.6", "validator-calls", not unexplained, "%d call sites of %d validation routines on the untrusted path; none disappeared%s" % (
+        sum(cur.values()), len(cur), " (%d renamed or moved)" % len(lost) if lost else "") if not unexplained else "%d validator call site(s) disappeared" % unexplained, "")
     ctx.floor("validator call sites on the untrusted path", sum(cur.values()), 20)
 
 
